@@ -152,7 +152,7 @@ def jobs(tier):
           ["img", "flen", "nsz", "tbl", "havetbl"], cls="B",
           bound="untruncated 60-byte header whose numeric fields are 0, 16-byte name field arbitrary; name table <= 8 bytes or absent",
           defs=["-DV_FILE_MAX=60", "-DV_NAMES_MAX=8", "-DV_ONLY_NAME_FIELD"], timeout=900,
-          cbmc=["--unwindset", "arRdItemArch:2,arRdItemArch.0:10,arRdItemArch0.0:18,v_scan_lu8.0:10,strcpy.0:4,strlen.0:12", "--unwinding-assertions"],
+          cbmc=["--unwindset", "arRdItemArch:2,arRdItemArch.0:10,arRdItemArch0.0:18,v_scan_lu.0:10,strcpy.0:4,strlen.0:12", "--unwinding-assertions"],
           assumed=["sscanf(\"%8lu \") and strtol replaced by harness models (libc)", "fnameUnparse stubbed (diagnostic text only)",
                    "file model: fseek/ftell/fread over an in-memory image"])
     return js
